@@ -33,12 +33,17 @@ def cases(draw, exclude: frozenset = frozenset()):
 	mods = sorted(graph)
 	ops = []
 	for _ in range(rnd.randint(3, 9)):
-		k = rnd.choice(['edit', 'edit', 'run', 'run', 'run', 'run_nocache', 'clear', 'truncate', 'touch_grammar'])
+		k = rnd.choice(['edit', 'edit', 'edit_old_mtime', 'run', 'run', 'run', 'run_nocache', 'clear', 'truncate', 'touch_grammar'])
 		m = rnd.choice(mods)
 		visible = rnd.randint(0, P.VISIBLE[m] - 1)
 		if 'transitive-visible-edit' in exclude and P.dependents(graph, m) - {x for x in graph if m in graph[x]}:
 			visible = 0  # known finding: keep edits of modules with indirect dependents invisible
 		ops.append([k, m, visible, rnd.randint(1, 3), rnd.randint(0, 10 ** 6), rnd.choice(['0', '1', 'half', 'last'])])
+	if rnd.random() < 0.35:
+		# an mtime that comes back: content X at T1, run, content Y at T2, run, content Z at T1 again, run
+		m = rnd.choice(mods)
+		vis = [0 if ('transitive-visible-edit' in exclude and P.dependents(graph, m) - {x for x in graph if m in graph[x]}) else rnd.randint(0, P.VISIBLE[m] - 1) for _ in range(2)]
+		ops = [['run', m, 0, 1, 0, '0'], ['edit', m, vis[0], 2, 0, '0'], ['run', m, 0, 1, 0, '0'], ['edit_old_mtime', m, vis[1], 3, rnd.randint(0, 5), '0'], ['run', m, 0, 1, 0, '0']] + ops[:4]
 	ops.append(['run', mods[0], 0, 1, 0, '0'])
 	return {'graph': gname, 'ops': ops}
 
@@ -79,7 +84,7 @@ def judge(scratch: str, case: dict) -> tuple[list[tuple[str, str]], dict]:
 	graph = P.GRAPHS[case['graph']]
 	pkg = {m: 'src' for m in graph}
 	work = tempfile.mkdtemp(prefix='c05-', dir=scratch)
-	info = {'warm_after_visible_edit': False, 'truncation_read': False, 'runs': 0}
+	info = {'warm_after_visible_edit': False, 'truncation_read': False, 'runs': 0, 'mtime_recurrence': False}
 	fails: list[tuple[str, str]] = []
 	trace: list[str] = []
 	try:
@@ -97,6 +102,7 @@ def judge(scratch: str, case: dict) -> tuple[list[tuple[str, str]], dict]:
 		for m in graph:
 			P.bump_write(os.path.join(proj, 'src', m + '.py'), P.module_source(m, pkg, 0, 1, graph))
 		ran_once = False
+		mtimes_at_runs: dict = {x: [] for x in graph}
 		visible_edit_since_run: set = set()
 		truncated_since_run = False
 		damaged = False   # a damaged cache file may make every later cache-enabled run fail until the cache is cleared or rebuilt
@@ -118,10 +124,19 @@ def judge(scratch: str, case: dict) -> tuple[list[tuple[str, str]], dict]:
 		for kind, m, visible, invisible, pick, offset in case['ops']:
 			if fails:
 				break
-			if kind == 'edit':
+			if kind in ('edit', 'edit_old_mtime'):
 				state[m] = (visible, invisible)
-				P.bump_write(os.path.join(proj, 'src', m + '.py'), P.module_source(m, pkg, visible, invisible, graph))
-				trace.append(f'edit({m}, visible={visible}, body={invisible})')
+				path_m = os.path.join(proj, 'src', m + '.py')
+				P.bump_write(path_m, P.module_source(m, pkg, visible, invisible, graph))
+				# the new content gets an mtime the file already had at an earlier cached run (a timestamp-preserving restore), but not the one of the latest run
+				olds = [t for t in mtimes_at_runs[m][:-1] if t != mtimes_at_runs[m][-1]] if kind == 'edit_old_mtime' and mtimes_at_runs[m] else []
+				if olds:
+					t = olds[pick % len(olds)]
+					os.utime(path_m, ns=(t, t))
+					info['mtime_recurrence'] = True
+					trace.append(f'edit({m}, visible={visible}, body={invisible}, mtime of run #{mtimes_at_runs[m].index(t) + 1} restored)')
+				else:
+					trace.append(f'edit({m}, visible={visible}, body={invisible})')
 				if P.dependents(graph, m):
 					visible_edit_since_run.add(m)
 			elif kind == 'clear':
@@ -149,6 +164,9 @@ def judge(scratch: str, case: dict) -> tuple[list[tuple[str, str]], dict]:
 			elif kind in ('run', 'run_nocache'):
 				cache = kind == 'run'
 				info['runs'] += 1
+				if cache:
+					for x in graph:
+						mtimes_at_runs[x].append(os.stat(os.path.join(proj, 'src', x + '.py')).st_mtime_ns)
 				trace.append('run' if cache else 'run(cache disabled)')
 				expect = cold_outputs()
 				cache_dir = os.path.join(proj, '.cache')
@@ -210,7 +228,7 @@ def shard(ctx: core.Ctx) -> None:
 		fails, info = run_judge(ctx.scratch, case)
 		ctx.extra['runs'] = ctx.extra.get('runs', 0) + info['runs']
 		ctx.case([case['graph'], case['ops']], info['warm_after_visible_edit'] or info['truncation_read'], sample={'graph': case['graph'], 'history': [f'{o[0]}({o[1]},{o[2]},{o[3]})' if o[0] == 'edit' else o[0] for o in case['ops']]},
-			labels=['history', case['graph']] + [k for k in ('warm_after_visible_edit', 'truncation_read') if info[k]])
+			labels=['history', case['graph']] + [k for k in ('warm_after_visible_edit', 'truncation_read', 'mtime_recurrence') if info[k]])
 		for sig, detail in fails:
 			ctx.fail(sig, detail, case)
 
